@@ -3,6 +3,7 @@ package main
 import (
 	"bytes"
 	"encoding/binary"
+	"encoding/hex"
 	"strings"
 
 	vs "github.com/peterstace/simplefeatures/verifsim"
@@ -311,6 +312,32 @@ func inject(fs *vs.Stream, rec, other []byte, fields []field, format int, comple
 		apply("trailing-garbage", "-", append([]byte("\xef\xbb\xbf"), rec...))
 	}
 
+	// --- hex text: PostGIS hands WKB to text-mode clients as hex; a string
+	// scanner may meet it (whole, truncated to odd and even lengths, dirty)
+	if format == fWKB {
+		hx := []byte(hex.EncodeToString(rec))
+		apply("hex-text", "-", hx)
+		apply("hex-text", "-", bytes.ToUpper(hx))
+		for _, p := range positions(fs, minInt(len(hx), 96), complete, minInt(per, 48)) {
+			apply("hex-text", "-", hx[:p])
+		}
+		for i := 0; i < 8 && len(hx) > 0; i++ {
+			x := clone(hx)
+			x[fs.Intn(len(x), "hx")] = "0123456789abcdefABCDEFxg "[fs.Intn(25, "hv")]
+			apply("hex-text", "-", x[:fs.Intn(len(x)+1, "hl")])
+		}
+	}
+	// --- positions carrying many extra values (allowed by RFC 7946, ignored by
+	// decoders) next to many ordinary positions
+	if format == fGeoJSON {
+		for _, kn := range [][2]int{{8000, 8000}, {3000, 2000}, {20000, 3000}} {
+			first := "[1,2" + strings.Repeat(",0", kn[0]) + "]"
+			rest := strings.Repeat(",[1,2]", kn[1])
+			apply("extra-values", "number", []byte(`{"type":"LineString","coordinates":[`+first+rest+`]}`))
+			apply("extra-values", "number", []byte(`{"type":"Polygon","coordinates":[[`+first+rest+`,[1,2`+strings.Repeat(",0", kn[0])+`]]]}`))
+			apply("extra-values", "number", []byte(`{"type":"MultiPoint","coordinates":[`+first+rest+`]}`))
+		}
+	}
 	// --- token-level faults for text formats
 	if !binaryFmt {
 		injectTokens(fs, rec, format, complete, per, apply)
